@@ -327,6 +327,10 @@ struct _spawn_future_op_base {
         while (!evt_.ready())
           ;
 
+        // if storing the value threw, the spawned operation replaced value with
+        // error after we read the state; its final state is published by evt_
+        state = state_.load(std::memory_order_relaxed);
+
         // having synchronized with evt_, we can now clean up
         deleter_(this, state);
 
